@@ -42,7 +42,7 @@ Proof.
     [ destruct (r_kind r); now left
     | destruct (o_chan c); cbn [negb]; [|now left]; destruct (o_tmo c) as [d|]; [|now left];
       match goal with |- context [if ?b then _ else _] => destruct b end; [destruct (is_running s)|]; now left ].
-  - destruct (getop s o) as [c|]; [|now left]; destruct (o_status c); try (now left); destruct (is_running s); now left.
+  - destruct (getop s o) as [c|]; [|now left]; destruct (o_status c); try (now left); try destruct (fix20 (fx s)); destruct (is_running s); now left.
   - now left.
 Qed.
 Theorem reachable_rsingle f evs : rsingle (run f evs).
@@ -211,7 +211,7 @@ Proof.
       destruct (o_tmo c) as [d|]; [|repeat istrip]. match goal with |- context [if ?b then _ else _] => destruct b end; [|repeat istrip].
       destruct (is_running s); repeat istrip.
   - (* StreamFinish *) destruct (getop s o) as [c|] eqn:Ec; [|exact E]. apply (exact_ipres s); [exact E|].
-    destruct (o_status c); try apply ipres_refl; destruct (is_running s); repeat istrip.
+    destruct (o_status c); try apply ipres_refl; try destruct (fix20 (fx s)); destruct (is_running s); repeat istrip.
   - (* Advance *) apply (exact_ipres s); [exact E|]. repeat istrip.
 Qed.
 
